@@ -132,6 +132,7 @@ from vlib.report import Report
 
 PID = "C19"
 SRCLINES_MODULES = ["SrcLines", "SrcLines_MC", "SrcLines_Gen", "SrcLines_Trace"]      # run by checks/ext_srclines.py
+PENDLABEL_MODULES = ["PendLabel", "PendLabel_MC", "PendLabel_Gen", "PendLabel_Trace"]  # run by checks/ext_pendlabel.py
 RADICES = [16, 2, 8, 10, 36]
 SHARES = [("c", "-c", ".h"), ("pas", "-p", ".inc"), ("asm", "-a", ".inc")]
 DEBUGS = [("MAP", ".map"), ("NOICE", ".noi"), ("ATMEL", ".obj")]
@@ -465,6 +466,8 @@ def main(tier):
                                depth=400, timeout=1200, mem="4g")
     from checks import ext_srclines         # dimension "line origins" (SrcLines*.tla): its TLC runs go on beside these, too
     src_h = ext_srclines.start(tier)
+    from checks import ext_pendlabel        # dimension "pending label" (PendLabel*.tla): likewise
+    pend_h = ext_pendlabel.start(tier)
     cfg = "Listing_MC.cfg" if quick else "Listing_MC4.cfg"
     with Phase("TLC Listing_MC %s (+ ListingModes_MC %s, _stale, ListingModes_Gen)" % (cfg, mcfg)):
         mc = tlc.must(tlc.run("Listing_MC", cfg, workers=min(NCPU, 8), timeout=1700, mem="12g", collect=False), "Listing_MC")
@@ -548,6 +551,12 @@ def main(tier):
     for (sources, opts, wants, meta) in ext_srclines.jobs(ext_srclines.models(rep, src_h, tier), DEBUGS, RADICES):
         jobs.append((bld.dir, bld.hooks, bld.flavour, sources, opts, wants))
         metas.append(meta)
+    # programs of the dimension "pending label": a label alone on its line x the statements between it and the statement
+    # that gets padded x that statement, on 68000 and MSP430; all runs are judged by PendLabel_Trace (code file as the
+    # witness of the final values), one run per program also by Listing_Trace
+    for (sources, opts, wants, meta) in ext_pendlabel.jobs(ext_pendlabel.models(rep, pend_h, tier), tier):
+        jobs.append((bld.dir, bld.hooks, bld.flavour, sources, opts, wants))
+        metas.append(meta)
     with Phase("assemble %d generated programs" % len(jobs)):
         with cf.ProcessPoolExecutor(max_workers=NCPU) as ex:
             gres = list(ex.map(_run_generated, jobs, chunksize=4))
@@ -570,6 +579,7 @@ def main(tier):
     # events ------------------------------------------------------------------------------------------
     cases = []
     infos = []
+    pend_runs = []
     ph_ev = Phase("tokenise reports, build events")
     ph_ev.__enter__()
     for m, res in list(zip(metas, gres)) + list(zip(cmeta, cres)):
@@ -580,6 +590,11 @@ def main(tier):
             else:
                 rep.drift("golden source %s with report options: rc=%s %s" % (m["name"], res["rc"], res["msg"][-200:]))
             continue
+        if m.get("sub") == "pendlabel":
+            pend_runs.append((m, res))
+            if not m["full"]:                 # judged by PendLabel_Trace only
+                rep.distinct((m["name"], m["radix"], m["share"], m["debug"]), True)
+                continue
         ev, stats = case_events(res["trace"], res["files"], m["base"], m["radix"], m["share"], m["debug"], res["p"])
         m["stats"] = stats
         cases.append(ev)
@@ -587,10 +602,12 @@ def main(tier):
         rep.distinct((m["name"], m["radix"], m["share"], m["debug"]), stats["code_rows"] > 0)
     ph_ev.__exit__(None, None, None)
     src_j = ext_srclines.start_judge([(m, res) for (m, res) in infos if m.get("sub") == "srclines"])   # beside Listing_Trace
-    with Phase("Listing_Trace: %d runs, %d events (+ SrcLines_Trace: %d runs)" % (len(cases), sum(map(len, cases)),
-                                                                                len(src_j["cases"]))):
+    pend_j = ext_pendlabel.start_judge(pend_runs)                                                      # likewise
+    with Phase("Listing_Trace: %d runs, %d events (+ SrcLines_Trace: %d runs, PendLabel_Trace: %d runs)" % (
+            len(cases), sum(map(len, cases)), len(src_j["cases"]), len(pend_j["cases"]))):
         bad, tr = judge(cases)
         ext_srclines.finish(rep, src_j)
+        ext_pendlabel.finish(rep, pend_j)
     rep.cov["states"] += tr.distinct
     rep.cov["transitions"] += tr.generated
     rep.traces(len(cases))
@@ -670,7 +687,7 @@ def main(tier):
                 if mdrift[d[0]] <= 3:
                     rep.drift("generated program %s (listing modes): %s" % (m["name"], d[1]))
             continue
-        if m["kind"] != "generated" or ci in bad or m.get("sub") == "srclines":
+        if m["kind"] != "generated" or ci in bad or m.get("sub") in ("srclines", "pendlabel"):
             continue
         d = expectation_diff(m, res)
         if d and ndrift < 5:
@@ -698,7 +715,9 @@ def main(tier):
              "dialects + TLC-simulated programs of ListingModes (14 top-level statements: LISTING x MACEXP_DFT/_OVR/MACEXP x "
              "SAVE/RESTORE x macro control parameters x IF constructs x macro calls / REPT) + TLC-generated programs of SrcLines "
              "(INCLUDE x macro call x REPT / IRP / IRPC / WHILE nested two deep, two include files, two macros; line named by "
-             "MAP / NoICE / Atmel / listing judged against the program text) + golden sources (quick: 45 seed-chosen, thorough: all 201), each assembled with -L -listradix "
+             "MAP / NoICE / Atmel / listing judged against the program text) + TLC-enumerated programs of PendLabel (label alone "
+             "on its line at an even / odd address x <= 2 intervening statements of 11 kinds x following statement, 68000 / "
+             "MSP430, share -c / -p / -a; reported values judged against the words of the code file) + golden sources (quick: 45 seed-chosen, thorough: all 201), each assembled with -L -listradix "
              "{2,8,10,16,36} x -g {MAP,NOICE,ATMEL} x share {-c,-p,-a} (round robin); distinct = (program, radix, share, "
              "debug); non-trivial = the listing has code-bearing rows", exhaustive=False)
 
@@ -738,6 +757,9 @@ def replay(path):
     if (v.get("key") or {}).get("phase") == "reports":
         from checks import ext_reports
         return ext_reports.replay(path, c)
+    if (v.get("key") or {}).get("phase") == "pendlabel":
+        from checks import ext_pendlabel
+        return ext_pendlabel.replay(path, c)
     if (v.get("key") or {}).get("phase") == "srclines":
         from checks import ext_srclines
         return ext_srclines.replay(path, c)
@@ -799,7 +821,8 @@ def selftest(tier):
         log("selftest %-32s %s" % (n, "rejected" if rej else "accepted"))
         ok = ok and (rej == (n != "unchanged"))
     log("selftest C19 binding: %s" % ("OK" if ok else "FAILED"))
-    from checks import ext_reports, ext_srclines
+    from checks import ext_pendlabel, ext_reports, ext_srclines
     ok = ext_srclines.selftest() and ok
+    ok = ext_pendlabel.selftest() and ok
     ok = ext_reports.selftest() and ok
     return 0 if ok else 1
